@@ -772,6 +772,9 @@ func checkGeneric(box orb.Bound, g orb.Geometry, qs []orb.Point, tl tols) error 
 	if err := independent(box, g, got); err != nil {
 		return err
 	}
+	if err := linesAgree(box, g, tl); err != nil {
+		return err
+	}
 	sure, none := somethingRemains(box, g, qs, tl)
 	if got == nil && sure {
 		return fmt.Errorf("clip.Geometry(%s) = nil although part of the input lies in the box %v: %s", gen.KindOf(g), box, gen.Canon(g))
@@ -850,6 +853,56 @@ func checkGeneric(box orb.Bound, g orb.Geometry, qs []orb.Point, tl tols) error 
 		}
 	}
 	return nil
+}
+
+// linesAgree: clip.LineString is used as a primitive of the expectation, so it
+// is judged here too, coarsely (C07 judges it finely): for every line of g the
+// clipped pieces lie in the box and their total length is the exact length of
+// the line inside the box within 1e-9 * max|coordinate| per output vertex.
+func linesAgree(box orb.Bound, g orb.Geometry, tl tols) error {
+	var err error
+	var walk func(g orb.Geometry)
+	one := func(ls orb.LineString) {
+		if err != nil {
+			return
+		}
+		pieces := clip.LineString(box, append(orb.LineString(nil), ls...))
+		want, got, nv := 0.0, 0.0, 1
+		for _, r := range exact.ClipLine(box, ls, false).Runs {
+			want += r.Length
+		}
+		for _, p := range pieces {
+			nv += len(p)
+			for i, v := range p {
+				if !inBox(box, v) {
+					err = fmt.Errorf("clip.LineString piece vertex %v outside the box %v", v, box)
+					return
+				}
+				if i > 0 {
+					got += math.Hypot(v[0]-p[i-1][0], v[1]-p[i-1][1])
+				}
+			}
+		}
+		if math.Abs(got-want) > tl.lineSmall*float64(nv) {
+			err = fmt.Errorf("clip.LineString(%v, %v) has total length %v, the exact length inside is %v", box, ls, got, want)
+		}
+	}
+	walk = func(g orb.Geometry) {
+		switch v := g.(type) {
+		case orb.LineString:
+			one(v)
+		case orb.MultiLineString:
+			for _, l := range v {
+				one(l)
+			}
+		case orb.Collection:
+			for _, m := range v {
+				walk(m)
+			}
+		}
+	}
+	walk(g)
+	return err
 }
 
 // ---------------------------------------------------------------- results are values of their own
